@@ -18,4 +18,11 @@ CANARIES = [
          edits=[(RH, '''        if let Err(e) = self.do_handle().await {
             trace!("handling request failed: {e}");
         }''', '''        self.do_handle().await.unwrap();''')]),
+    dict(id='h-dialer-ignores-ack', unit=U, what='dialer does not require a valid acknowledgement', expect=['handshake::dialer_requires_the_acknowledgement'],
+         edits=[('crates/anemo/src/network/wire.rs', '            read_version_frame(&mut recv_stream).await?;', '            let _ = read_version_frame(&mut recv_stream).await;')]),
+    dict(id='h-dialer-no-ack-at-all', unit=U, what='dialer does not wait for the acknowledgement stream', expect=['handshake::dialer_requires_the_acknowledgement'],
+         edits=[('crates/anemo/src/network/wire.rs', '''            let mut recv_stream = connection.accept_uni().await?;
+            read_version_frame(&mut recv_stream).await?;''', '''            let _ = &connection;''')]),
+    dict(id='h-listener-no-preamble', unit=U, what='listener finishes the acknowledgement stream without writing the preamble', expect=['handshake::listener_sends_exactly_the_preamble'],
+         edits=[('crates/anemo/src/network/wire.rs', '            write_version_frame(&mut send_stream, Version::V1).await?;\n            send_stream.finish()?;', '            send_stream.finish()?;')]),
 ]
